@@ -23,6 +23,11 @@ Tie to the code (model: coq/theories/Stream.v, theorems: coq/props/C02.v):
                    only duplicates; every stream carries the decision point as key, the manager's seed string, the
                    SAME index map object and clock as its siblings; the same streams created in the reverse order
                    (plus one more) in a second manager give bit-identical draws.
+In every world with key columns the registered positions are read through the public index_map[Index([label])] after
+every registration: each must lie in [0, len(index_map)) and no two simulants may share a block element (Coq: map_wf on
+every map, theorem C02_checked_maps_distinct); about 45% of the stand-alone worlds with key columns use a small map
+(population 30-80% of a prime map size not dividing 111111), so colliding keys are the rule; draws of distinct
+registered simulants must differ pairwise in every observed request.
 A quarter of the observed requests go through sample_from_distribution with the identity quantile function (as ppf= and
 as scipy's uniform(0,1)): they must return the very same draws (Stream.v sample_from, C02_sample_from_distribution).  In
 `ctx` worlds of `unrel` builder.randomness.get_seed is compared too (equal for equal decision point/clock/seed, different
